@@ -244,7 +244,9 @@ class SqlalchemyRender:
             lim_down = self.to_expression(t.args[1])
             lim_up = self.to_expression(t.args[2])
 
-            col = sa.between(col0, lim_down, lim_up)
+            # sqlalchemy does not group the bounds: x BETWEEN (a OR b) AND c would lose its parentheses
+            between_op = sa.sql.operators.between_op
+            col = sa.between(col0, lim_down.self_group(against=between_op), lim_up.self_group(against=between_op))
             if t.alias:
                 col = col.label(self.get_alias(t.alias))
         elif isinstance(t, ast.Interval):
